@@ -44,7 +44,7 @@ def sys_path_repo():
 def cases(seed, tier):
     rng = rng_for(seed, 'c13')
     out = []
-    n = 14 if tier == 'quick' else 150
+    n = 30 if tier == 'quick' else 300
     for i in range(n):
         mixed = i % 3 == 2
         shape = (int(rng.integers(110, 170)), int(rng.integers(110, 170)))
